@@ -432,6 +432,16 @@ class Models:
                 path.unfolded.add(key)
                 path.assume(z3.Select(arr.arr, kt) == z3.Select(ENV, nm))
 
+    def inplace_update(self, ip, arr: SArr, new) -> None:
+        """x op= y on an ndarray: contents of the same object become the element-wise result."""
+        S = self.as_seq(new)
+        fresh = sym.fresh("inplace", sym.RealArr)
+        h = getattr(ip.reg, "define_array_hook", None)
+        if h is None:
+            raise Unsupported("in-place array operator")
+        h(ip, fresh, self.len_term(S.n), lambda k: real_term(S.get(k)))
+        arr.arr = fresh
+
     def as_seq(self, v) -> SSeq:
         if isinstance(v, SSeq):
             return v
@@ -1327,6 +1337,28 @@ class Models:
 
     def b_numpy_nan_to_num(self, ip, a, kw, node):
         return ip.schema.nan_to_num(ip, a[0], kw)
+
+    def b_numpy_clip(self, ip, a, kw, node):
+        X = self.as_seq(a[0])
+        lo = a[1] if len(a) > 1 else kw.get("a_min")
+        hi = a[2] if len(a) > 2 else kw.get("a_max")
+
+        def bound(b, k):
+            if b is None:
+                return None
+            if isinstance(b, (SSeq, SArr, PList)):
+                return real_term(self.seq_get(b, k)) if not isinstance(b, SSeq) else real_term(b.get(k))
+            return real_term(b)
+
+        def el(k):
+            t = real_term(X.get(k))
+            l_, h_ = bound(lo, k), bound(hi, k)
+            if l_ is not None:
+                t = sym.zmax(t, l_)
+            if h_ is not None:
+                t = sym.zmin(t, h_)
+            return SReal(t, "npfloat")
+        return SSeq(X.n, el, "ndarray", "clip")
 
     def b_numpy_diag(self, ip, a, kw, node):
         return ip.schema.np_diag(ip, a[0])
